@@ -166,12 +166,15 @@ def _receiver_start(text, end):
     """start offset of the postfix-expression ending at `end` (exclusive)."""
     toks = lex(text[:end])
     i = len(toks) - 1
+    saw_brace_group = False
     while i >= 0:
         t = toks[i]
         if t[0] in ('ws', 'lcomment', 'bcomment'):
             i -= 1
             continue
         if t[0] == 'punct' and t[1] in CLOSE:
+            if t[1] == '}':
+                saw_brace_group = True
             # find matching open
             depth = 0
             while i >= 0:
@@ -213,7 +216,7 @@ def _receiver_start(text, end):
             if j >= 0 and toks[j][0] == 'punct' and toks[j][1] in '&*!' :
                 # unary prefix belongs to the receiver only for `?`-free chains; keep it out
                 pass
-            if j >= 0 and toks[j][0] == 'ident' and toks[j][1] == 'match':
+            if saw_brace_group and j >= 0 and toks[j][0] == 'ident' and toks[j][1] == 'match':
                 # `match SCRUTINEE { .. }.method()`: the whole match expression is the receiver
                 return toks[j][2]
             return toks[i + 1][2] if i + 1 < len(toks) else 0
